@@ -9,8 +9,8 @@ import (
 	"github.com/protobom/protobom/pkg/native"
 	"github.com/protobom/protobom/pkg/native/unserializers"
 	"github.com/protobom/protobom/pkg/sbom"
-	"github.com/spdx/tools-golang/spdx"
 	spdxjson "github.com/spdx/tools-golang/json"
+	"github.com/spdx/tools-golang/spdx"
 
 	"verifharness/coqfmt"
 	"verifharness/nativefmt"
@@ -59,9 +59,11 @@ func cdxUnserSeam(rep *Report, cf caseAdder, data []byte, kind string, in map[st
 		return nil
 	}
 	c := fmt.Sprintf("(CUnser %s %s %s)", nativefmt.CBom(decoded), coqfmt.NodeList(doc2.NodeList), docTypesCoq(doc2))
-	cf.Add(c)
-	rep.NoteCase(c, len(doc2.NodeList.Nodes) >= 3, map[string]any{"seam": "Unserialize(cdx)", "kind": kind, "input": in})
-	rep.Count("seam=B:cdx:" + kind)
+	if !tooLarge(rep, c) {
+		cf.Add(c)
+		rep.NoteCase(c, len(doc2.NodeList.Nodes) >= 3, map[string]any{"seam": "Unserialize(cdx)", "kind": kind, "input": in})
+		rep.Count("seam=B:cdx:" + kind)
+	}
 	return doc2
 }
 
@@ -98,8 +100,10 @@ func spdxUnserSeam(rep *Report, cf caseAdder, data []byte, kind string, in map[s
 		return nil
 	}
 	c := fmt.Sprintf("(SUnser %s %s %s)", nativefmt.SDoc(decoded), parseTimes(decoded), coqfmt.NodeList(doc2.NodeList))
-	cf.Add(c)
-	rep.NoteCase(c, len(doc2.NodeList.Nodes) >= 3, map[string]any{"seam": "Unserialize(spdx)", "kind": kind, "input": in})
-	rep.Count("seam=B:spdx:" + kind)
+	if !tooLarge(rep, c) {
+		cf.Add(c)
+		rep.NoteCase(c, len(doc2.NodeList.Nodes) >= 3, map[string]any{"seam": "Unserialize(spdx)", "kind": kind, "input": in})
+		rep.Count("seam=B:spdx:" + kind)
+	}
 	return doc2
 }
